@@ -182,7 +182,7 @@ def gen_connect_fault_case(rng: random.Random) -> dict:
     plans = {}
     for a in ["10.0.0.5", "10.0.0.6", "fd00::5", "10.0.0.7"]:
         if kind == "tcp":
-            plans[a] = [{"outcome": pick(rng, ["hang", "refused", "unreachable", "timedout", "ok"]), "latency": pick(rng, [0.0, 0.05, 0.15, 5.0, 59.9999, 60.0001])}]
+            plans[a] = [{"outcome": pick(rng, ["hang", "refused", "unreachable", "timedout", "ok", "netunreach_sync"]), "latency": pick(rng, [0.0, 0.05, 0.15, 5.0, 59.9999, 60.0001])}]
         else:
             plans[a] = [{"outcome": "ok", "latency": pick(rng, [0.0, 0.001, 0.05])}]
     net["connect"] = plans
@@ -251,6 +251,25 @@ def gen_connect_fault_case(rng: random.Random) -> dict:
     return scn
 
 
+def gen_burst_case(rng: random.Random) -> dict:
+    """Several callers issue the same request at the same instant; the device answers them in one segment, answers one
+    of them twice, or answers late: every call still ends with its result or a classified error."""
+    client: dict = {"addresses": ["10.0.0.5"], "keepalive": 20.0}
+    device: dict = {}
+    gen_transport(rng, client, device, noise_p=0.3)
+    kind = pick(rng, ["device_info", "device_info", "list_entities"])
+    if kind == "device_info":
+        di = ["DeviceInfoResponse", {"name": "simdev"}]
+        device["replies"] = {"DeviceInfoRequest": [{"msgs": [di] * pick(rng, [1, 1, 2, 3]), "delay": pick(rng, [0.0, 0.0, 0.01])}]}
+    else:
+        le = [["ListEntitiesSwitchResponse", {"key": 1}], ["ListEntitiesDoneResponse", {}]]
+        device["replies"] = {"ListEntitiesRequest": [{"msgs": le * pick(rng, [1, 1, 2]), "delay": pick(rng, [0.0, 0.01])}]}
+    actors = [{"id": "a0", "at": {"t": 0.0}, "steps": [{"do": "connect", "login": rng.random() < 0.5}, {"do": "sleep", "d": 3.0}, {"do": "disconnect"}]}]
+    for j in range(rng.randint(2, 4)):
+        actors.append({"id": f"w{j}", "at": {"on": "state", "match": {"new": "CONNECTED"}, "delay": pick(rng, [0.0, 0.0, 0.001])}, "steps": [{"do": kind}, {"do": kind}], "eager": rng.random() < 0.7})
+    return {"family": "session", "kind": "burst", "knobs": gen_knobs(rng), "client": client, "device": device, "net": {"cuts": pick(rng, [{"mode": "coalesce"}, {"mode": "coalesce"}, {"mode": "sends"}]), "c2d_latency": pick(rng, [0.0, 0.001]), "d2c_latency": [pick(rng, [0.0, 0.001])]}, "actors": actors, "events": [], "end": 200.0}
+
+
 class C09(CheckBase):
     pid = "C09"
     level = "fault_enumeration"
@@ -286,8 +305,8 @@ class C09(CheckBase):
                 b = with_cause(b, c1, {"turn": n + k}, pick(rng, ["pre", "post"]), rng)
                 yield b
         else:
-            for _ in range(30 if tier == "quick" else 60):
-                yield gen_connect_fault_case(rng)
+            for k in range(30 if tier == "quick" else 60):
+                yield gen_burst_case(rng) if k % 6 == 5 else gen_connect_fault_case(rng)
 
     def oracle(self, run: Any, scn: dict) -> list[Violation]:
         ix = Index(run.history)
